@@ -127,6 +127,27 @@ Section EqKSWIN.
     intros c alpha vs. induction vs as [|v r IH]; intros s Hks; [reflexivity|].
     cbn [fold_left kops_from]. rewrite (IH _ Hks). rewrite (g_step_model c alpha s v Hks). reflexivity.
   Qed.
+
+  (** histories: C02's clause (reset() = where a fresh history starts) and C01's warm-up silence over the generated KSWIN *)
+  Lemma kswin_fresh : forall n alpha test ops1 ops2, (1 <= test)%Z -> (2 * test <= n)%Z ->
+    g_exec (KSWIN__update ks choice) KSWIN_reset (ksw_t n alpha test g_init) (ops1 ++ Rst :: ops2) =
+    g_exec (KSWIN__update ks choice) KSWIN_reset (ksw_t n alpha test g_init) ops2.
+  Proof.
+    intros n alpha test ops1 ops2 Ht Hn.
+    exact (g_exec_reset_fresh _ _ _ (g_step n alpha test) g_init (ksw_t n alpha test) (KSWIN__update ks choice) KSWIN_reset
+             (fun s => (0 <= g_n s)%Z) anyv ltac:(cbn; lia) (fun s v H _ => g_step_n n alpha test s v H)
+             (fun s v H _ => KSWIN_update_eq n alpha test s v Ht Hn H) (fun s _ => KSWIN_reset_eq n alpha test s)
+             ops1 ops2 (ops_any _) (ops_any _)).
+  Qed.
+
+  Lemma kswin_warmup : forall n alpha test vs, (Z.of_nat (length vs) < n)%Z -> g_drift (g_krun n alpha test vs) = false.
+  Proof.
+    intros n alpha test vs Hlt. destruct vs as [|x r] using rev_ind; [reflexivity|]. clear IHr.
+    unfold g_krun. rewrite fold_left_app. cbn [fold_left]. fold (g_krun n alpha test r). unfold g_step. cbn [g_drift].
+    destruct (g_krun_fields n alpha test r) as [_ Hw]. rewrite Hw, lastn_lastn_snoc.
+    replace (n <=? Z.of_nat (length (lastn (Z.to_nat n) (r ++ [x]))))%Z with false; [reflexivity|].
+    symmetry. apply Z.leb_gt. rewrite lastn_length. rewrite app_length in *. cbn [length] in *. lia.
+  Qed.
 End EqKSWIN.
 Print Assumptions src_kswin_window.
 
@@ -172,3 +193,20 @@ Proof.
   unfold ksw_t. rewrite Hk, Hd, repeat_length. eexists. reflexivity.
 Qed.
 Print Assumptions src_kswin_constant.
+
+Theorem src_kswin_warmup_and_reset : forall (A : Arith) (ks : list (NumSys.num A) -> list (NumSys.num A) -> NumSys.num A * NumSys.num A)
+    (choice : list (NumSys.num A) -> Z -> list (NumSys.num A)) n alpha test (s0 : kst (A:=A)),
+  (1 <= test)%Z -> (2 * test <= n)%Z ->
+  match KSWIN_reset (ksw_t n alpha test s0) with
+  | Ok (s1, _) =>
+      (forall vs, (Z.of_nat (length vs) < n)%Z -> exists k w, g_run (KSWIN__update ks choice) s1 vs = Ok ((n, alpha, test), k, false, w)) /\
+      (forall ops1 ops2, g_exec (KSWIN__update ks choice) KSWIN_reset s1 (ops1 ++ Rst :: ops2) = g_exec (KSWIN__update ks choice) KSWIN_reset s1 ops2)
+  | Raise _ => False
+  end.
+Proof.
+  intros A ks choice n alpha test s0 Ht Hn. rewrite KSWIN_reset_eq. cbv beta iota. fold (g_init (A:=A)). split.
+  - intros vs Hlt. rewrite (g_kswin_run_eq ks choice n alpha test vs g_init Ht Hn ltac:(cbn; lia)).
+    fold (g_krun ks choice n alpha test vs). unfold ksw_t. rewrite (kswin_warmup ks choice n alpha test vs Hlt). eexists _, _. reflexivity.
+  - intros ops1 ops2. exact (kswin_fresh ks choice n alpha test ops1 ops2 Ht Hn).
+Qed.
+Print Assumptions src_kswin_warmup_and_reset.
